@@ -201,6 +201,21 @@ def same_molecule(m1, m2):
         return None
 
 
+def labelled_conjugated_large_ring(mol, min_ring=8):
+    """a conjugated double bond with an E/Z label inside a ring of >= 8
+    atoms: with resonance=True the converter also describes the bonds that
+    are double in the other resonance structures, which carry no label and
+    sit in a ring large enough to be cis or trans"""
+    from rdkit import Chem
+    for b in mol.GetBonds():
+        if b.GetStereo() in (Chem.BondStereo.STEREOZ,
+                             Chem.BondStereo.STEREOE) \
+                and b.GetIsConjugated() and b.IsInRing() \
+                and not any(b.IsInRingSize(k) for k in range(3, min_ring)):
+            return True
+    return False
+
+
 def check_respell(ctx, case):
     try:
         return _check_respell(ctx, case)
@@ -210,6 +225,11 @@ def check_respell(ctx, case):
             raise Violation(v.sig + "/ambiguous-ring-double-bond",
                             v.msg + " [a ring double bond has two candidate "
                             "in-ring neighbours at one end]")
+        if mol is not None and case["opts"][2] and \
+                labelled_conjugated_large_ring(mol):
+            raise Violation(v.sig + "/resonance-in-large-ring",
+                            v.msg + " [resonance=True, labelled conjugated "
+                            "double bond in a ring of >= 8 atoms]")
         raise
 
 
